@@ -228,6 +228,32 @@ pub fn run(args: &Args, acc: &mut Acc) { if args.get("workload") == Some("wrappe
 fn wrappers(args: &Args, acc: &mut Acc, seed: u64, verbose: bool) {
     use super::c06;
     let mut rng = Rng::new(seed);
+    // 1 run in 3: the old-events / new-events executor pair of a log-channel Multi (the pipelines of C12's `sequential` workload, futures executors): the pair
+    // shares one configured limit per executor -- with a sequential transition one executor is active at a time, otherwise both are
+    if args.only.is_none() && rng.chance(1, 3) {
+        let rt = if rng.chance(1, 2) { Rt::CurrentPaused } else { Rt::Multi(2 + rng.below(7) as usize) };
+        let (limit, sequential, exec, with_timeout) = (1 + rng.below(4) as u32, rng.chance(1, 2), rng.below(2) as u8, rng.chance(1, 3));
+        let olds: Vec<u8> = (0..rng.below(8)).map(|_| 1 + rng.below(5) as u8).collect();
+        let news: Vec<u8> = (0..2 + rng.below(7)).map(|_| 1 + rng.below(5) as u8).collect();
+        let ledger = Ledger::new(olds.len() + news.len());
+        let (o, n, l) = (olds.clone(), news.clone(), ledger.clone());
+        let paused = rt == Rt::CurrentPaused;
+        let r = tk::run(rt, Duration::from_secs(60), move || super::c12::sequential_case(sequential, limit, exec, with_timeout, o, n, paused, l));
+        acc.evaluations += 1;
+        acc.count("wrapper_runs[multi, old-events + new-events executor pair]", 1);
+        if r.is_none() { acc.inconclusive += 1; acc.count("inconclusive_watchdog", 1); return }
+        let executors_at_a_time = if sequential { 1 } else { 2 };
+        let max = ledger.max_in_flight.load(SeqCst);
+        acc.count("max_in_flight_observed", max.max(0) as u64);
+        if max >= 2 { acc.nontrivial(mix(seed & 0xFFFF, (limit as u64) << 8 | 0x40 | executors_at_a_time as u64)) }
+        if max > limit as i32 * executors_at_a_time {
+            let v = J::obj().with("what", J::s(format!("{max} item futures were in progress at one instant; the concurrency limit is {limit} for each of the two executors (old events, new events) of this Multi, of which {executors_at_a_time} run(s) at a time (sequential transition {})", if sequential { "on" } else { "off" })))
+                .with("sigs", J::Arr(vec![J::obj().with("anomaly", J::s("concurrency_limit_exceeded")).with("executor", J::s("wrapper: oldies + newies")).with("with_timeout", J::Bool(with_timeout))]))
+                .with("config", J::obj().with("executor", J::s(super::c12::EXEC_NAMES[exec as usize])).with("sequential_transition", J::Bool(sequential)).with("concurrency_limit", J::i(limit as i64)).with("runtime", J::s(rt.describe())).with("old_events_work", J::s(format!("{:?}", olds))).with("new_events_work", J::s(format!("{:?}", news))));
+            file_violation(args, acc, seed, verbose, v);
+        }
+        return
+    }
     let mut cfg = c06::draw_cfg(&mut rng, args.only.as_deref());
     // futures executors only (synchronous items are never "in progress" concurrently), and enough events for the gauge to matter
     cfg.exec = if cfg.kind.starts_with("multi") { c06::Exec::FuturesFallible } else { *rng.pick(&[c06::Exec::FuturesFallible, c06::Exec::Futures]) };
